@@ -262,16 +262,13 @@ func TestC09_Verify(t *testing.T) {
 func TestC09_BoundarySizes(t *testing.T) {
 	r := ev.Get("C09")
 	sizes := []int{65535, 65536}
-	if !hx.Thorough() {
-		sizes = []int{65535}
-	}
 	for _, n := range sizes {
-		for _, which := range []string{"in", "out"} {
+		for _, which := range []string{"in", "out", "sigs"} {
 			var tx coin.Transaction
 			nin, nout := 1, 1
 			if which == "in" {
 				nin = n
-			} else {
+			} else if which == "out" {
 				nout = n
 			}
 			for i := 0; i < nin; i++ {
@@ -283,8 +280,24 @@ func TestC09_BoundarySizes(t *testing.T) {
 				tx.Out = append(tx.Out, coin.TransactionOutput{Address: gen.KeyN(0).Addr, Coins: 1, Hours: uint64(i)})
 			}
 			tx.Sigs = make([]cipher.Sig, len(tx.In)) // all null: unsigned check
+			if which == "sigs" {
+				tx.Sigs = make([]cipher.Sig, n) // more signatures than inputs: never valid, but it is an encoding
+			}
 			tx.InnerHash = txref.InnerHash(&tx)
 			tx.Length = uint32(txref.TxnSize(&tx))
+			// decode side at the boundary: the reference encoding either fails to decode or re-encodes identically
+			// (only the field under test is at the boundary: the decoder meets Sigs before In before Out)
+			dtx := tx
+			if which == "in" {
+				dtx.Sigs = dtx.Sigs[:1]
+			}
+			if _, derr := checkDecode(txref.EncodeTxn(&dtx)); derr != nil {
+				t.Fatalf("encoding with %d %s: %v", n, which, trimErr(derr))
+			}
+			if which == "sigs" {
+				r.Case(true, []byte(fmt.Sprintf("boundary/%s/%d", which, n)))
+				continue
+			}
 			var err error
 			if p := call(func() { err = tx.VerifyUnsigned() }); p != nil {
 				t.Fatalf("VerifyUnsigned panicked at %s=%d: %v", which, n, p)
@@ -310,6 +323,14 @@ func TestC09_BoundarySizes(t *testing.T) {
 			r.Case(true, []byte(fmt.Sprintf("boundary/%s/%d", which, n)))
 		}
 	}
+}
+
+func trimErr(e error) string {
+	s := e.Error()
+	if len(s) > 400 {
+		s = s[:200] + " ... " + s[len(s)-150:]
+	}
+	return s
 }
 
 // checkDecode: decode fails or re-encodes to the same bytes; never panics.
